@@ -118,6 +118,18 @@ def gen_cases(n, tag="fidelity", auto_share=0.02):
                 c["langs"] = [lang]
         st = dict(R.choice(pool))
         st["RELATIVE_BASE"] = R.choice(BASES)
+        v = R.random()
+        if v < 0.08:
+            st["TIMEZONE"] = "local"          # the harness runs with TZ=UTC
+        elif v < 0.16:
+            import datetime as _d
+            b = st["RELATIVE_BASE"]
+            if 2 <= b.year <= 9998:
+                st["RELATIVE_BASE"] = b.replace(tzinfo=_d.timezone(_d.timedelta(seconds=R.choice([0, 19800, -28800, 3600]))))
+        if c.get("langs") and len(c["langs"]) == 1 and R.random() < 0.08:
+            c["region"] = R.choice(["CA", "AU", "BE", "CH", "IN", "MX", "BR", "US"])
+        if c.get("langs") and len(c["langs"]) > 1 and R.random() < 0.5:
+            c["givenOrder"] = True
         c["settings"] = st
         c["today"] = today
         if R.random() < 0.1:
